@@ -488,6 +488,10 @@ def run(ctx):
             ctx.stat("doc:github-schema")
         except Exception as e:  # noqa
             ctx.fail("internal:%s" % type(e).__name__, "the real visitor raises on github-schema.graphql", {"exc": repr(e)})
+    try:
+        O.check_deep(ctx, coll.fail)
+    except Exception as e:  # noqa
+        ctx.notes.append("deep nesting stream failed: %r" % e)
     coll.flush()
     if ctx.model_ok and reqs:
         answers = []
@@ -645,6 +649,11 @@ def replay(ctx, data):
             O.check_dispatching(ctx, text, kw, fail)
         if "edit" in inp and "chain" not in inp:
             O.check_edits(ctx, text, kw, fail, positions=[inp["pos"]])
+        elif "deep" in inp:
+            mk = O.DEEP_POSITIONS[inp["deep"]]
+            out = O.deep_case(mk(inp["depth"]), inp.get("flavour", "plain"))
+            if out.startswith("visit:RecursionError"):
+                seen.append("raises:RecursionError:depth:%s" % inp["deep"])
         elif "cross" in inp:
             O.check_cross_kind(ctx, text, kw, fail, [inp["pos"]], ctx.rng, all_kinds=True)
         elif "nested" in inp:
